@@ -352,12 +352,17 @@ fn script(abits: u64, bbits: u64, rt: Route) -> String {
     for &e in &ext {
         push_raw(&mut out, e.abs());
     }
-    if !fails.is_empty() {
+    if !fails.is_empty() && !no_x() {
         fails.sort();
         fails.dedup();
         return format!("X {}", fails.join(" "));
     }
     out.join(" ")
+}
+
+/// C18_NO_X=1 (experiments only: is a change caught by the routes / traces alone?) suppresses the `X` lines
+fn no_x() -> bool {
+    std::env::var_os("C18_NO_X").is_some()
 }
 
 fn trace(t: &[&str]) -> String {
@@ -416,7 +421,7 @@ fn trace(t: &[&str]) -> String {
         out.push(format!("{} {}", f64::from(r).to_bits(), code));
         regs.push(r);
     }
-    if !fails.is_empty() {
+    if !fails.is_empty() && !no_x() {
         fails.sort();
         fails.dedup();
         return format!("X {}", fails.join(" "));
